@@ -85,7 +85,9 @@ func (k *KVStore) SetConfig(c *storage.Config) {
 func (k *KVStore) makeTable() error {
 	if len(k.tables) != 0 {
 		head := k.tables[len(k.tables)-1]
-		head.SetState(table.ReadOnlyState)
+		if head.State() == table.ReadWriteState {
+			head.SetState(table.ReadOnlyState)
+		}
 
 		for i, t := range k.tables {
 			if t.State() == table.RecycledState {
@@ -179,6 +181,15 @@ func (k *KVStore) NewEntry() storage.Entry {
 	return entry.New()
 }
 
+// hasWritableTable reports whether the last table accepts writes. It does not after the
+// read-write table has been transferred to another node and only recycled tables are left.
+func (k *KVStore) hasWritableTable() bool {
+	if len(k.tables) == 0 {
+		return false
+	}
+	return k.tables[len(k.tables)-1].State() == table.ReadWriteState
+}
+
 // deleteFromOlderTables removes the superseded versions of hkey from every table
 // except the last one. A key has at most one live version in a KVStore.
 func (k *KVStore) deleteFromOlderTables(hkey uint64) {
@@ -195,7 +206,7 @@ func (k *KVStore) PutRaw(hkey uint64, value []byte) error {
 		return storage.ErrEntryTooLarge
 	}
 
-	if len(k.tables) == 0 {
+	if !k.hasWritableTable() {
 		if err := k.makeTable(); err != nil {
 			return err
 		}
@@ -232,7 +243,7 @@ func (k *KVStore) Put(hkey uint64, value storage.Entry) error {
 		return storage.ErrEntryTooLarge
 	}
 
-	if len(k.tables) == 0 {
+	if !k.hasWritableTable() {
 		if err := k.makeTable(); err != nil {
 			return err
 		}
